@@ -115,7 +115,29 @@ def dummy_pub(rng):
     return ec.PrivateKey(bytes([rng.randrange(1, 255)] * 32)).get_public_key()
 
 
-def build_scopes(c, spk, records, tap_records, no_spk=False):
+def genuine_metadata(d, i, b):
+    """what a scope of the descriptor's own output (i, b) would carry besides script and records: witness script,
+    redeem script, the derived public keys, the taproot internal key. All of it is unauthenticated: a scope decorated
+    with it but paying to another script must not be claimed"""
+    deco = {}
+    st, dd = guarded(lambda: d.derive(i, b))
+    if st != "ok":
+        return deco
+    for name, fn in (("witness_script", lambda: dd.witness_script()), ("redeem_script", lambda: dd.redeem_script())):
+        st, v = guarded(fn)
+        if st == "ok" and v is not None:
+            deco[name] = v
+    st, ks = guarded(lambda: [k.get_public_key() if hasattr(k, "get_public_key") else k.key for k in dd.keys])
+    if st == "ok":
+        deco["pubkeys"] = [k for k in ks if isinstance(k, ec.PublicKey)]
+    if getattr(dd, "taproot", False):
+        st, ik = guarded(lambda: dd.key.get_public_key() if hasattr(dd.key, "get_public_key") else dd.key.key)
+        if st == "ok" and isinstance(ik, ec.PublicKey):
+            deco["taproot_internal_key"] = ik
+    return deco
+
+
+def build_scopes(c, spk, records, tap_records, no_spk=False, deco=None):
     """an input scope and an output scope carrying the script and the records, built with embit's PSBT classes and
     round-tripped through serialize/parse; returns [(name, scope)]"""
     r = c.rng
@@ -125,13 +147,21 @@ def build_scopes(c, spk, records, tap_records, no_spk=False):
     psbt = PSBT(tx)
     if not no_spk:
         psbt.inputs[0].witness_utxo = TransactionOutput(r.randrange(1, 10 ** 8), Script(spk))
+    real = list((deco or {}).get("pubkeys", []))
     for sc in (psbt.inputs[0], psbt.outputs[0]):
         for n, (fp, path) in enumerate(records):
-            pub = ec.PrivateKey((n + 1).to_bytes(32, "big")).get_public_key()
+            pub = real[n] if n < len(real) else ec.PrivateKey((n + 1).to_bytes(32, "big")).get_public_key()
             sc.bip32_derivations[pub] = DerivationPath(fp, list(path))
         for n, (fp, path) in enumerate(tap_records):
-            pub = ec.PrivateKey((n + 101).to_bytes(32, "big")).get_public_key()
+            pub = real[n] if n < len(real) else ec.PrivateKey((n + 101).to_bytes(32, "big")).get_public_key()
             sc.taproot_bip32_derivations[pub] = ([], DerivationPath(fp, list(path)))
+        if deco:
+            if "witness_script" in deco:
+                sc.witness_script = deco["witness_script"]
+            if "redeem_script" in deco:
+                sc.redeem_script = deco["redeem_script"]
+            if "taproot_internal_key" in deco:
+                sc.taproot_internal_key = deco["taproot_internal_key"]
     res = [("in", psbt.inputs[0])]
     if not no_spk:
         res.append(("out", psbt.outputs[0]))
@@ -155,9 +185,11 @@ def scope_line(T, scope):
     return " ".join(line.split()), recs + taps
 
 
-def check_scope(c, D, d, T, spk, records, tap_records, kind, expect=None, no_spk=False):
+def check_scope(c, D, d, T, spk, records, tap_records, kind, expect=None, no_spk=False, deco=None):
     """expect: True (must be claimed), False (must not be claimed), None (soundness only)"""
-    for name, scope in build_scopes(c, spk, records, tap_records, no_spk):
+    if deco:
+        c.tally("decorated:" + kind.split("-")[0])
+    for name, scope in build_scopes(c, spk, records, tap_records, no_spk, deco):
         st, v = guarded(d.owns, scope)
         impl = "ok %d" % (1 if v else 0) if st == "ok" else "none"
         line, recs = scope_line(T, scope)
@@ -240,6 +272,7 @@ def check_desc(c, pool, D, others):
         c.tally("cannot-derive")
         return
     tap = D.wrapper == "tr"
+    deco = genuine_metadata(d, i, b)
     allk = [k for k in D.keys() if k.is_hd and k.steps]
     honest = [k.record_at(i, b) for k in allk]
     short = [k.record_at(i, b, short=True) for k in allk]
@@ -254,6 +287,7 @@ def check_desc(c, pool, D, others):
         ranged_only = all(k.ranged for k in allk)
         exp = True if ranged_only else None
         check_scope(c, D, d, T, spk, *place(honest), kind="honest", expect=exp)
+        check_scope(c, D, d, T, spk, *place(honest), kind="honest-own-metadata", expect=exp, deco=deco)
         check_scope(c, D, d, T, spk, *place(short), kind="honest-short", expect=exp)
         k0 = r.choice(hd)
         check_scope(c, D, d, T, spk, *place([k0.record_at(i, b)]), kind="honest-one-key",
@@ -288,6 +322,9 @@ def check_desc(c, pool, D, others):
             st2, spk2 = guarded(lambda: o.derive(i, 0).script_pubkey().data)
         if st2 == "ok" and spk2 != spk:
             check_scope(c, D, d, T, spk2, *place(honest), kind="script-" + what, expect=False)
+            # the change-spoofing scope: everything the descriptor would record for (i, b) - derivations under the
+            # real derived keys, witness / redeem script, internal key - around a script that is not its own
+            check_scope(c, D, d, T, spk2, *place(honest), kind="script-" + what + "-own-metadata", expect=False, deco=deco)
     # same keys, other wrapper (single-key forms)
     if D.wrapper in ("pkh", "wpkh", "shwpkh"):
         for w in ("pkh", "wpkh", "shwpkh", "tr"):
